@@ -17,6 +17,7 @@ import (
 	cidlink "github.com/ipld/go-ipld-prime/linking/cid"
 	"github.com/ipni/go-libipni/ingest/schema"
 	"github.com/libp2p/go-libp2p/core/crypto"
+	"github.com/libp2p/go-libp2p/core/record"
 	recpb "github.com/libp2p/go-libp2p/core/record/pb"
 	"github.com/multiformats/go-multihash"
 	"google.golang.org/protobuf/proto"
@@ -42,6 +43,7 @@ type shape struct {
 	Ctx    string    `json:"ctx"`
 	Ov     bool      `json:"ov"`
 	Eps    []epEntry `json:"eps"`
+	Fmt    string    `json:"fmt"` // "current" | "old": the form of the advertisement's own signature payload
 }
 
 type tcase struct {
@@ -140,6 +142,45 @@ func otherAd(kt string) {
 		ExtendedProvider: &schema.ExtendedProvider{Providers: []schema.Provider{{ID: ids.PeerT("X", kt).String(), Addresses: []string{"/ip4/7.7.7.8/tcp/7777"}, Metadata: []byte("md-x")}}}}
 	k := ids.KeyT("X", kt)
 	o.SignWithExtendedProviders(k, func(string) (crypto.PrivKey, error) { return k, nil })
+}
+
+// oldRec seals the advertisement's signature payload in its deprecated form (the signed values themselves under a sha2-256
+// multihash header instead of their hash), which VerifySignature still accepts.
+type oldRec struct{ payload []byte }
+
+func (r *oldRec) Domain() string                 { return "indexer" }
+func (r *oldRec) Codec() []byte                  { return []byte("/indexer/ingest/adSignature") }
+func (r *oldRec) MarshalRecord() ([]byte, error) { return r.payload, nil }
+func (r *oldRec) UnmarshalRecord(b []byte) error { r.payload = b; return nil }
+
+func sealOld(ad *schema.Advertisement, k crypto.PrivKey) error {
+	var buf bytes.Buffer
+	if ad.PreviousID != nil {
+		buf.Write(ad.PreviousID.(cidlink.Link).Cid.Bytes())
+	} else {
+		buf.Write(cid.Undef.Bytes())
+	}
+	buf.Write(ad.Entries.(cidlink.Link).Cid.Bytes())
+	buf.WriteString(ad.Provider)
+	for _, a := range ad.Addresses {
+		buf.WriteString(a)
+	}
+	buf.Write(ad.Metadata)
+	if ad.IsRm {
+		buf.WriteByte(1)
+	} else {
+		buf.WriteByte(0)
+	}
+	pl, err := multihash.Encode(buf.Bytes(), multihash.SHA2_256)
+	if err != nil {
+		return err
+	}
+	env, err := record.Seal(&oldRec{pl}, k)
+	if err != nil {
+		return err
+	}
+	ad.Signature, err = env.Marshal()
+	return err
 }
 
 func keyFor(name, kt string, nested bool) crypto.PrivKey {
@@ -321,6 +362,11 @@ func runCase(tc *tcase, kt, codec string, nested bool) (ob observed, infra error
 	ad := build(&tc.Shape, kt)
 	if err := sign(ad, tc, kt, nested); err != nil {
 		return ob, fmt.Errorf("sign: %w", err)
+	}
+	if tc.Shape.Fmt == "old" {
+		if err := sealOld(ad, ids.KeyT(tc.Signer, kt)); err != nil {
+			return ob, fmt.Errorf("seal in the old form: %w", err)
+		}
 	}
 	if err := mutate(ad, tc, kt); err != nil {
 		return ob, fmt.Errorf("mutate: %w", err)
